@@ -9,10 +9,12 @@ import (
 	"sync"
 
 	pipeline "github.com/buildkite/go-pipeline"
+	"github.com/buildkite/go-pipeline/signature"
 
 	"verif/doc"
 	"verif/gen"
 	"verif/keys"
+	"verif/refmodel"
 	"verif/run"
 	"verif/util"
 )
@@ -409,6 +411,27 @@ func checkC14(c *run.Ctx) {
 				}
 			}
 		}
+		if len(base.Plugins) > 0 && ok {
+			// an integer of 2^53 and beyond (a byte count, a nanosecond timestamp, an id) against the string of its
+			// digits, in a plugin config and in an unknown matrix field: a number is never signed like a string
+			if _, isMap := base.Plugins[0].Config.(map[string]any); isMap || base.Plugins[0].Config == nil {
+				n := []int64{1 << 53, 1<<53 + 1, 1125899906842624001, -9007199254740993, 1<<63 - 1, 1 << 31, 1<<53 - 1}[r.IntN(7)]
+				tw, tw2 := util.DeepCopy(base), util.DeepCopy(base)
+				for _, t := range []*pipeline.CommandStep{tw, tw2} {
+					if t.Plugins[0].Config == nil {
+						t.Plugins[0].Config = map[string]any{}
+					}
+				}
+				tw.Plugins[0].Config.(map[string]any)["big"] = int(n)
+				tw2.Plugins[0].Config.(map[string]any)["big"] = fmt.Sprint(n)
+				pa := observe("differ:large-integer-vs-its-digits(a)", tw, penv, repo, kp)
+				pb := observe("differ:large-integer-vs-its-digits(b)", tw2, penv, repo, kp)
+				if ok && pa != nil && string(pa) == string(pb) {
+					c.Violation(id, map[string]any{"what": fmt.Sprintf("the integer %d and the string %q in a plugin config give the same payload", n, fmt.Sprint(n)), "payload": clip(string(pa), 3000)})
+					ok = false
+				}
+			}
+		}
 		if mx := base.Matrix; mx != nil {
 			for d, vs := range mx.Setup {
 				if len(vs) > 1 {
@@ -496,6 +519,57 @@ func checkC14(c *run.Ctx) {
 				observe("mutation:"+m.Kind, m.Step, penv, m.Repo, kp)
 			}
 		}
+		// the same step signed as one of several by SignSteps: its bytes depend on its own content, the pipeline env,
+		// the repository and the algorithm - not on its siblings, its position or what was signed before it
+		if ok {
+			pe := copyEnv(penv0)
+			if len(pe) == 0 {
+				pe["PV"] = "1"
+			}
+			names := refmodel.SortedKeys(pe)
+			shadowing := util.DeepCopy(base)
+			if shadowing.Env == nil {
+				shadowing.Env = map[string]string{}
+			}
+			shadowing.Env[names[0]] = "defined by the step"
+			other := &pipeline.CommandStep{Command: "sibling", Env: map[string]string{names[len(names)-1]: "x", "ONLY_HERE": "y"}}
+			list := []*pipeline.CommandStep{{Command: "plain sibling"}, shadowing, util.DeepCopy(base), other, {Command: "last"}}
+			r.Shuffle(len(list), func(a, b int) { list[a], list[b] = list[b], list[a] })
+			alone := make([][]byte, len(list))
+			for k, st := range list {
+				_, alone[k], _ = signStep(kp, util.DeepCopy(st), repo, copyEnv(pe))
+			}
+			steps := pipeline.Steps{}
+			if r.IntN(2) == 0 {
+				steps = append(steps, list[0], &pipeline.GroupStep{Steps: pipeline.Steps{list[1], list[2]}}, list[3], list[4])
+			} else {
+				for _, st := range list {
+					steps = append(steps, st)
+				}
+			}
+			l := &payloadLogger{}
+			var serr error
+			if pi := run.Guard(func() {
+				serr = signature.SignSteps(bg, steps, kp.Signer, repo, signature.WithEnv(pe), signature.WithLogger(l), signature.WithDebugSigning(true))
+			}); pi != nil {
+				c.Violation(id, map[string]any{"what": "SignSteps panicked: " + pi.Value, "stack": pi.Stack})
+				ok = false
+			} else if serr != nil || len(l.payloads) != len(list) {
+				c.Violation(id, map[string]any{"what": fmt.Sprintf("SignSteps over %d command steps: err=%v, %d payloads on the debug channel", len(list), serr, len(l.payloads))})
+				ok = false
+			} else {
+				for k := range list {
+					c.Eval(1)
+					if string(l.payloads[k]) != string(alone[k]) {
+						c.Violation(id, map[string]any{"what": fmt.Sprintf("the payload of step %d of %d signed by SignSteps differs from the payload of the same step signed alone with the same pipeline env, repository and key (payload depends on the siblings signed before it)", k, len(list)),
+							"payload_in_list": clip(string(l.payloads[k]), 3000), "payload_alone": clip(string(alone[k]), 3000), "pipeline_env": pe, "commands_in_order": []string{list[0].Command, list[1].Command, list[2].Command, list[3].Command, list[4].Command}})
+						ok = false
+						break
+					}
+				}
+				c.Count("payloads_compared_signed_in_a_list_vs_alone", len(list))
+			}
+		}
 		c.Feature(kp.Kind, len(base.Plugins), base.Matrix != nil, len(base.Env) > 0, len(penv) > 0, o.BigMaps)
 		if ok && c.WantSample() {
 			c.Sample(map[string]any{"payload": clip(string(p0), 1000), "semantic_form": clip(semanticForm(base, penv, repo, kp.Alg), 1000)})
@@ -507,5 +581,5 @@ func checkC14(c *run.Ctx) {
 	c.Finish("exploration",
 		"families of variants around generated command steps (with pipeline env, repository URL, key kind): must-collide variants (repeat, shuffled document key order in JSON and YAML, rebuilt Go maps, nil vs empty containers, short vs canonical plugin source, int vs integral float and empty config vs null in plugin configs, changed value of a shadowed pipeline variable) and must-differ variants (a rune moved between command and repository URL, between an env key and its value, between adjacent plugin sources, between two dimension values, a variable moved between step env and pipeline env, \"1\" vs 1, algorithm name, every C01 single-point content mutation); payloads are read from the debug logger channel of Sign. Besides the pairwise assertions, a batch-wide monitor requires the partition by payload hash and the partition by the harness's semantic form to be identical. distinct_nontrivial counts distinct (key kind, plugin count, matrix, env, pipeline env, big maps) classes",
 		nil,
-		[]string{"integers beyond 2^53 are not distinguished by JCS by specification and are not generated", "skip: false = absent (both mean not skipped); skip \"\"/0 vs absent is known finding K1", "timestamps in configs are not generated"})
+		[]string{"two integers beyond 2^53 that round to the same double are not distinguished by JCS by specification; such integers are only compared with the string of their digits", "skip: false = absent (both mean not skipped); skip \"\"/0 vs absent is known finding K1", "timestamps in configs are not generated"})
 }
